@@ -327,3 +327,7 @@ def l4_refusal(F, R, M):
                         bad = 'SIZE=%d queue_used=%d max_queue_size=%d: refused with %s after allocating/registering' % (size, used, mx, want)
         R.tables += rows
         R.check(bad is None, 'L4', '%s:refusal' % b['id'], where, 'AlreadyUsed / InvalidParam decided before any allocation (%d rows)' % rows, 'queue construction refusal: %s' % bad)
+
+
+def thorough_extra(R, here):
+    run_witnesses(R, here, {'C06L5NotPowerOfTwo': 'VirtQueue with SIZE = 3', 'C06L5TooLarge': 'VirtQueue with SIZE = 65536'}, 'L5')
